@@ -107,9 +107,97 @@ def classify_abort(run, p):
     return "%s:%s:%s" % (kind, fn, "+".join(mode) or "in-struct")
 
 
+IDX_BODY = """parser {
+  s += /[a-z]*/;
+  /[;,]/;
+  n = [s.len]; m = [s.len];
+  ra = [s[s.len - 1]];
+  rb = [s[n - 1]];
+  rc = [s[m - 2]];
+  rd = [s[$last - 44]];
+  re = [s[s.len + %d]];
+  rf = [s[n - m - 1]];
+  "\\n";
+}
+"""
+
+
+def index_family(ctx, rng, quick):
+    """computed string indices that leave the buffer on either side: differences of operands narrower than int (negative after
+    integer promotion), the length itself, the last byte as a table index. Non-zero neighbours on both sides of the string make a
+    stray read visible as a value (in-struct) where ASan is blind; the heap modes make it visible to ASan."""
+    entries = []
+    for cap in (2, 4, 8):
+        for order in range(3):
+            g0 = 'out unterminated str[4] g0 = "wxyz";\n'
+            g1 = 'out unterminated str[4] g1 = "WXYZ";\n'
+            sd = "out str[%d] s;\n" % cap
+            decl = [g0 + sd + g1, sd + g0 + g1, g0 + g1 + sd][order]
+            decl += "out int{unsigned, size 1} n;\nout int{unsigned, size 2} m;\nout int ra;\nout int rb;\nout int rc;\nout int rd;\nout int re;\nout int rf;\n"
+            src = decl + IDX_BODY % cap
+            rows = [r + u for r in STORAGE for u in ([], ["-fstrings-as-u8"])]
+            for row in (rng.sample(rows, 4) if quick else rows):
+                entries.append((src, [rng.choice(["-O0", "-O1", "-O2", "-O3"])] + row, cap))
+    for chunk in work.chunked(entries, 30):
+        progs = []
+        for i, (src, args, cap) in enumerate(chunk):
+            r = nm.compile_source(src, args, name="p%d" % i)
+            if not r.ok:
+                ctx.violation("c03:index-family-rejected", "index family program not accepted: %s" % (r.exc_msg,), {"nmfu_source": src, "nmfu_args": args})
+                continue
+            progs.append(cdrv.Prog(r, meta={"src": src, "args": args, "label": "index-family", "cap": cap}))
+        if not progs:
+            continue
+        batch = cdrv.Batch(progs).build()
+        runs = []
+        for p in batch.live:
+            cap = p.meta["cap"]
+            p.meta["inputs"] = []
+            for L in sorted({0, 1, 2, cap - 1, cap}):
+                for sep in b";,":
+                    w = bytes(rng.choice(b"abcdefghijklmnopqrstuvwxyz") for _ in range(L))
+                    bs = w + bytes([sep]) + b"\n"
+                    p.meta["inputs"].append((w, sep, bs))
+                    ii = len(p.meta["inputs"]) - 1
+                    feeds = ["FEED " + cdrv.hexs(bs)] if rng.random() < 0.5 else ["FEED " + cdrv.hexs(bs[k:k + 1]) for k in range(len(bs))]
+                    runs.append(("%s.%d" % (p.name, ii), p, ["QUIETOK 1", "POISON %d" % rng.choice([0xAA, 0xFF, 0x01]), "START"] + feeds + ["SNAP", "FREE"]))
+        res = batch.run(runs, timeout=900)
+        ctx.count("binaries")
+        for rid, run in res.items():
+            p = run.prog
+            w, sep, bs = p.meta["inputs"][int(rid.split(".")[1])]
+            cap = p.meta["cap"]
+            ctx.evaluations += 1
+            ctx.count("runs")
+            ctx.count("index_family_runs")
+            base = {"nmfu_source": p.meta["src"], "nmfu_args": p.meta["args"], "input_hex": bs.hex(), "script": run.script, "c_source": p.source, "c_header": p.header}
+            if run.abort:
+                if run.abort[0] == "watchdog":
+                    ctx.count("watchdog_inconclusive")
+                else:
+                    ctx.count("sanitizer_reports")
+                    ctx.violation("c03:" + classify_abort(run, p) + ":computed-index", "sanitizer report: %s" % (run.abort[1],), dict(base, stderr=run.stderr))
+                continue
+            snap = next((e[1] for e in run.events[::-1] if e[0] == "N"), None)
+            if snap is None or len(w) > cap - 1:
+                continue        # the append overflowed: FAIL before the index expressions
+            d = cdrv.parse_snap(snap)
+            L = len(w)
+            exp = {"ra": w[L - 1] if L >= 1 else 0, "rb": w[L - 1] if L >= 1 else 0, "rc": w[L - 2] if L >= 2 else 0,
+                   "rd": (w[0] if L >= 1 else 0) if sep == 44 else 0, "re": 0, "rf": 0}
+            ctx.count("index_reads_checked", len(exp))
+            ctx.nontrivial((p.meta["src"], tuple(p.meta["args"]), bs.hex()))
+            bad = {k: (d.get(k), v) for k, v in exp.items() if d.get(k) != v}
+            if bad:
+                ctx.violation("c03:out-of-range-index-reads-memory:" + "+".join(sorted(bad)),
+                              "an index outside the string must read 0 (got, expected): %s" % (bad,), dict(base, snapshot=snap))
+        batch.cleanup()
+
+
 def run(ctx: Ctx):
     rng = ctx.rng
     quick = ctx.quick
+    index_family(ctx, rng, quick)
     n_gen = 30 if quick else 250
     rows_per = 4 if quick else 20
     sink = contracts.Sink()
@@ -233,6 +321,7 @@ def run(ctx: Ctx):
     ctx.floor("runs_with_nonempty_buffers", 300)
     ctx.floor("set_string_contract_evaluations", 30)
     ctx.floor("leak_checks", 50)
+    ctx.floor("index_reads_checked", 300)
     ctx.inconclusive_if(len(modes_seen) < 6, "fewer than 6 storage mode sets were built")
     ctx.rule = ("case = (program, storage-mode set, input, hostile call history: poisoned state, random chunking, calls after a terminal "
                 "result, end(), free twice, start/free cycles); non-trivial = some string/raw output became non-empty; distinct by "
